@@ -59,10 +59,14 @@ def getrids (env : Env) (uid gid : Nat) : Nat × Nat :=
     | _, _ => (uid, gid)
   else (uid, gid)
 
-/-- `vfs.config_dir(name)`; `ex` = `vfs.exists` -/
+/-- `vfs.config_dir(name)`; `ex` = `vfs.exists` (repaired code: the system directories are always
+    searched; the user directory is prepended when `user::config_dir()` succeeds.
+    `sys_config_dirs().unwrap_or_default()`: `sysConfigDirs` is total here, it never fails) -/
 def vfsConfigDir (env : Env) (ex : Str → Bool) (name : Str) : Option Str :=
-  match configDir env with
-  | .ok c => ((c :: sysConfigDirs env).find? (fun d => ex (mash d name)))
-  | _ => none
+  let dirs := sysConfigDirs env
+  let dirs := match configDir env with
+    | .ok c => c :: dirs
+    | _ => dirs
+  dirs.find? (fun d => ex (mash d name))
 
 end Rivia.User
